@@ -284,6 +284,11 @@ def plan(ctx):
         c = dc.bracket_case(ctx.rng, mats[i % len(mats)])
         c["tag"] = "day-brackets"
         cases.append(c)
+    # fatigue-dominated lives of a few cycles (appended last: the random stream of the families above is unchanged)
+    for i in range(len(mats) if ctx.quick() else 6 * len(mats)):
+        c = dc.fatigue_short_case(ctx.rng, mats[i % len(mats)])
+        c["tag"] = "fatigue-dominated-short-life"
+        cases.append(c)
     return cases
 
 
